@@ -1048,7 +1048,7 @@ class Translator:
                 binders += f' ({n} : {self.T(self.implicit_types[n])})'
             for n, t in lparams:
                 binders += f' ({n} : {self.T(t)})'
-            src = f'{mod.path.name}:{node.lineno} {cls + "." if cls else ""}{name}' + \
+            src = f'{mod.path.name} {cls + "." if cls else ""}{name}' + \
                   (f' [{kind}]' if kind in ('getter', 'setter') else '') + \
                   f'  argument types {sig or "-"}'
             text = f'/-- {src} -/\ndef {lean}{binders} : {rty} :=\n    {body}\n'
@@ -1090,7 +1090,7 @@ class Translator:
             self.depth -= 1
         binders = ''.join(f' ({n} : {self.T(self.implicit_types[n])})' for n in fn.implicit)
         binders += ''.join(f' ({lname(p)} : {self.T(t)})' for p, t in params)
-        text = (f'/-- fragment of {mod.path.name}' + (f':{lineno}' if lineno else '') +
+        text = (f'/-- fragment of {mod.path.name}' +
                 f' -/\ndef {lean}{binders} : {rty} :=\n    {body}\n')
         self.defs.append((lean, text))
         return {'lean': lean, 'ret': ret, 'wrap': wrap, 'implicit': list(fn.implicit),
@@ -1179,7 +1179,7 @@ class Translator:
             fn.pending = []
         lines.append(f'Env.new {lst(given["levels"])} {lst(given["times"])} {curves(given["curves"])} '
                      f'{node_(given["release_node"])} {node_(given["loop_node"])} {self.toF(*off)}')
-        text = (f'/-- {mod.path.name}:{node.lineno} {cls}.{name} [classmethod] -/\n'
+        text = (f'/-- {mod.path.name} {cls}.{name} [classmethod] -/\n'
                 f'def {lname(name)} {" ".join(binders)} : Env :=\n    ' + '\n    '.join(lines) + '\n')
         self.defs.append((lname(name), text))
         self.ctor_mode = False
